@@ -418,6 +418,24 @@ func (mo *monitors) afterStep() bool {
 	if !ok {
 		return false
 	}
+	// C11: a version identifies its content. Whenever the newest view a consumer holds has the
+	// height, round and version of the mirror's own snapshot, the two must hold the same
+	// proposed headers and signatures (no quiescence needed for this direction).
+	for _, pr := range []struct {
+		mine *tmconsensus.VersionedRoundView
+		got  *tmconsensus.VersionedRoundView
+		role string
+	}{{&vv, mo.c11.lastGossipVoting, "voting"}, {&cv, mo.c11.lastGossipCommitting, "committing"}} {
+		if pr.got == nil || pr.mine.Height == 0 || pr.got.Height != pr.mine.Height || pr.got.Round != pr.mine.Round || pr.got.Version != pr.mine.Version {
+			continue
+		}
+		mo.c11.sameVersionCompared++
+		if a, b := viewDigest(pr.mine), viewDigest(pr.got); a != b {
+			mo.cs.violate("C11", "C11:view-content-differs-at-the-same-version:gossip:"+pr.role,
+				fmt.Sprintf("the mirror's %s view %d/%d and the newest one gossip received both have version %d but differ in content", pr.role, pr.mine.Height, pr.mine.Round, pr.mine.Version),
+				map[string]any{"mirror": a, "gossip": b})
+		}
+	}
 
 	// C01/C04 from the views.
 	if cv.Height > 0 && (!mo.havePos || cv.Height != mo.lastCH || cv.Round != mo.lastCR) {
